@@ -15,7 +15,8 @@
 (*   [k |-> "Neg", o |-> A]                          -A                    *)
 (*   [k |-> "Prod", l, r]  l * r     [k |-> "Sum", l, r]   [k |-> "Diff"]  *)
 (* t = "T" (scalar of the spline's data type), "int", "uint" or "ulong"    *)
-(* (C++ literals 3, 3u, 3ul); v is the scalar's value as a rational.  fs is the tuple of    *)
+(* (C++ literals 3, 3u, 3ul), "flt"/"dbl" (3.0f, 3.0: floating families     *)
+(* only); v is the scalar's value as a rational.  fs is the tuple of    *)
 (* factor splines the Spl leaves refer to.                                 *)
 (*                                                                         *)
 (* Level A  DenApply: the differential expression the AST spells, applied  *)
